@@ -298,7 +298,7 @@ class TabWorld:
                                   f"{first_diff(exp_rows, got)}", **sig)
 
     # --------------------------------------------------------------- merging
-    def op_make_runs(self, group, fmt, runs, descending, extra_types):
+    def op_make_runs(self, group, fmt, runs, descending, extra_types, row_group=None):
         """runs: list of lists of [score(float), id(int)] rows; each run is sorted here and stored as one file."""
         if any(k.startswith(group + "_") for k in self.tables):
             return
@@ -317,7 +317,14 @@ class TabWorld:
             path = self._path(name, fmt)
             df = self._df(columns, types, rows)
             if fmt == "parquet":
-                df.to_parquet(path, index=False)
+                if row_group:
+                    import pyarrow as pa
+                    import pyarrow.parquet as pq
+
+                    pq.write_table(pa.Table.from_pandas(df, preserve_index=False), path, row_group_size=int(row_group))
+                    self.kinds.add(("run_rowgroups", min(3, len(rows) // int(row_group))))
+                else:
+                    df.to_parquet(path, index=False)
             else:
                 df.to_csv(path, sep="\t", index=False)
             self.tables[name] = {"path": path, "fmt": fmt, "columns": columns, "types": types, "rows": rows,
